@@ -24,7 +24,10 @@ type GenCfg struct {
 	// PBigList: probability that a "more than four terms" multi-scalar call gets a threshold-sized list
 	PBigList float64
 	// PGC: probability per step of a forced garbage collection (twice: empties sync.Pool and its victim cache)
-	PGC         float64
+	PGC float64
+	// PFlood: probability per step of a long run of distinct inputs to one operation (H.Flood)
+	PFlood      float64
+	Deep        bool
 	PProbe      float64
 	PRelatives  float64 // probability of the related-operands macro
 	PImport     float64 // probability of the export/scale/import macro
@@ -779,6 +782,19 @@ func (g *Gen) randomStep() {
 	cfg := g.cfg
 	w := g.r.W
 	// pseudo-operations and macros first
+	if cfg.PFlood > 0 && rng.Bool(cfg.PFlood) {
+		u := uint32(rng.Intn(len(floodClasses)))
+		sizes := []int{300, 1100, 4200, 9000}
+		if cfg.Deep {
+			sizes = append(sizes, 20000, 70000)
+		}
+		n := sizes[rng.Intn(len(sizes))]
+		if cl := floodClasses[u]; n > 4200 && (cl == "Point.ScalarMult" || cl == "Point.VarTimeDoubleScalarBaseMult" || cl == "Point.VarTimeMultiScalarMult") {
+			n = 4200 // the scalar multiplications cost ~50 us each, twice
+		}
+		g.push(Call{Op: "H.Flood", L: n + rng.Intn(5), U: u, Mode: rng.Uint64() >> 12, Fault: "flood"})
+		return
+	}
 	if cfg.PGC > 0 && rng.Bool(cfg.PGC) {
 		g.push(Call{Op: "H.GC", Fault: "gc/pool-eviction"})
 		return
